@@ -28,6 +28,9 @@
 (declare-fun sub.cache.disk.entry.value (Int) Int)
 (declare-fun subinv.cache.disk.entry.value (Int) Int)
 (define-fun itemOf ((x Int)) Int (sub.cache.disk.entry.value x))
+; strings.HasPrefix and regular-expression matching are uninterpreted
+(declare-fun hasPrefix (GStr GStr) Bool)
+(declare-fun reMatch (Int GStr) Bool)
 ; name of an open file
 (declare-fun fileName (Int) GStr)
 ; eviction queue (ghost bag of entries handed to the remover)
